@@ -81,6 +81,31 @@ func c27Gen(t *rapid.T) c27Case {
 		a = c27Lines(t, "a", 24)
 		b = c27Lines(t, "b", 24)
 	}
+	// near-equal lines: the same text with a trailing CR, trailing or leading blank, or in upper
+	// case is a different line (CRLF against LF files, whitespace-only changes)
+	if rapid.IntRange(0, 3).Draw(t, "variants") == 0 {
+		for _, lines := range [][]string{a, b} {
+			for i := range lines {
+				switch rapid.IntRange(0, 11).Draw(t, "variant") {
+				case 0, 1:
+					lines[i] += "\r"
+				case 2:
+					lines[i] += " "
+				case 3:
+					lines[i] += "\t"
+				case 4:
+					lines[i] = " " + lines[i]
+				case 5:
+					lines[i] = strings.ToUpper(lines[i])
+				}
+			}
+		}
+		if rapid.IntRange(0, 3).Draw(t, "crlfFile") == 0 { // one side entirely CRLF
+			for i := range b {
+				b[i] = strings.TrimSuffix(b[i], "\r") + "\r"
+			}
+		}
+	}
 	ca, cb := strings.Join(a, "\n"), strings.Join(b, "\n")
 	if rapid.IntRange(0, 3).Draw(t, "nla") == 0 && len(a) > 0 {
 		ca += "\n"
@@ -262,7 +287,7 @@ func c27Check(c c27Case, r *ev.Recorder) *Failure {
 func TestC27(t *testing.T) {
 	p := &prop[c27Case]{
 		ID:   "C27",
-		Rule: "pairs of texts over a 6-line alphabet (incl. the empty line), 0..40 lines (up to ~110 with long unique-line runs that trigger the >14-line elision), generated as base+edit script (inserted/deleted runs, replaced lines) or as unrelated texts, with trailing-newline variants; plus exhaustive enumeration of all pairs of texts with <=4 lines over 3 symbols. Oracle: quadratic LCS and a unified-diff applier. Non-trivial: texts differ, share at least one line (LCS>0) and need >=2 edits (or contain an elided run); distinct by the text pair.",
+		Rule: "pairs of texts over a 6-line alphabet (incl. the empty line), 0..40 lines (up to ~110 with long unique-line runs that trigger the >14-line elision), generated as base+edit script (inserted/deleted runs, replaced lines) or as unrelated texts, with trailing-newline variants; in a quarter of the pairs half of the lines are replaced by near-equal ones (trailing CR, trailing/leading blank, upper case; sometimes one side entirely CRLF); plus exhaustive enumeration of all pairs of texts with <=4 lines over 3 symbols. Oracle: quadratic LCS and a unified-diff applier. Non-trivial: texts differ, share at least one line (LCS>0) and need >=2 edits (or contain an elided run); distinct by the text pair.",
 		Assume: []string{"a hunk with zero left lines is positioned after the stated line (unified-diff convention)", "the right-hand line number of each hunk is checked too (it is part of 'hunks apply ... to produce the second')"},
 		Quick: 100000, Thorough: 1000000,
 		Gen:   c27Gen,
